@@ -41,10 +41,12 @@ fn roundtrip6(ctx: &mut Ctx, rng: &mut Rng, recorded: &[Vec<u8>]) {
     }
     ctx.count(&format!("v6[{}]", kind), 1);
     let hint = p.has_token().or(Some(rng.bool()));
+    // scratch buffer: exactly the documented minimum or larger
     let mut rbuf = [0u8; 2048];
+    let rcap = if rng.bool() { 1400 } else { 2048 };
     let r = catch(|| {
         let mut w = Warnings::new();
-        let r = p6::Packet::read(&mut w, &bytes, hint, &mut rbuf[..]).map(|q| Pkt6::from_lib(&q));
+        let r = p6::Packet::read(&mut w, &bytes, hint, &mut rbuf[..rcap]).map(|q| Pkt6::from_lib(&q));
         (r, w)
     });
     match r {
@@ -97,9 +99,10 @@ fn roundtrip7(ctx: &mut Ctx, rng: &mut Rng, recorded: &[Vec<u8>]) {
     }
     ctx.count(&format!("v7[{}]", kind), 1);
     let mut rbuf = [0u8; 2048];
+    let rcap = if rng.bool() { 1400 } else { 2048 };
     let r = catch(|| {
         let mut w = Warnings::new();
-        let r = p7::Packet::read(&mut w, &bytes, &mut rbuf[..]).map(|q| Pkt7::from_lib(&q));
+        let r = p7::Packet::read(&mut w, &bytes, &mut rbuf[..rcap]).map(|q| Pkt7::from_lib(&q));
         (r, w)
     });
     match r {
